@@ -147,6 +147,13 @@ class DomainAdapter(Adapter):
                 if not (np.array_equal(d.to_fourier(probe.copy()), d2.to_fourier(probe.copy())) and
                         np.array_equal(d.to_real(probe.copy()), d2.to_real(probe.copy()))):
                     bad('FreshEquivalent.deepcopy', attribute='transforms', what='the deep copy of the Domain transforms differently')
+                # another live Domain with ANOTHER grid, used in between, does not disturb this one
+                keep_f, keep_r = np.array(d.to_fourier(probe.copy())), np.array(d.to_real(probe.copy()))
+                other = Domain(n, dr=float(d.dr) * 2.0)
+                other.to_fourier(probe.copy())
+                other.to_real(probe.copy())
+                if not (np.array_equal(keep_f, d.to_fourier(probe.copy())) and np.array_equal(keep_r, d.to_real(probe.copy()))):
+                    bad('FreshEquivalent.other_domain', what='using another Domain object in between changed the transforms of this one')
                 # ... and stays one when the original is reconfigured afterwards (no shared mutable state)
                 keep = np.array(d2.to_fourier(probe.copy()))
                 d.dr = d.dr * 1.0
